@@ -29,7 +29,8 @@ AXES = {
     "PhaseSpaceShiftY": [2, -3],
     "StepsPerTs": [1, 2, 4, 50],
     "BunchCurrent": [],   # filled below: filling patterns x bucket-spacing lattice x RoundPadding
-    "padding": [1, 1.5, 3],
+    # padding factors with and without rounding to a power of two (odd, even, non-integral padded lengths: 8*2.1 -> 17, 8*2.6 -> 21, 8*2.5 = 20)
+    "padding": [1, 1.5, 3, 2.1, 2.5, "1.5|RoundPadding=false", "3|RoundPadding=false", "2.1|RoundPadding=false", "2.5|RoundPadding=false", "2.6|RoundPadding=false", "4.1|RoundPadding=false"],
     "RoundPadding": ["false"],
     "impedance": ["VacuumGap=0", "VacuumGap=-0.03", "VacuumGap=0.03|UseCSR=true", "WallConductivity=1.4e6", "Impedance=@z_long", "Impedance=@z_equal", "Impedance=@z_short", "Impedance=@z_empty"],
     "InitialDistFile": ["@start_txt", "@start_h5_same", "@start_h5_other", "@start_h5_two", "@start_h5_trunc", "@start_txt_outside",
